@@ -69,7 +69,7 @@ theorem verifySelect_notHigh {s : Sess} {m : InMsg} {tl : Bool} {r : Rej} (h : (
         · simp at h
 
 theorem ite_storeReset_frame (c : Prop) [Decidable c] (s : Sess) :
-    (if c then s.storeReset else s).cfg = s.cfg ∧ (if c then s.storeReset else s).st = s.st := by
+    (if c then dropAndReset s else s).cfg = s.cfg ∧ (if c then dropAndReset s else s).st = s.st := by
   split <;> exact ⟨rfl, rfl⟩
 
 /-- a Logon is accepted, or found "too high" (which also establishes the session and starts recovery), only past the
@@ -98,7 +98,7 @@ theorem handleLogon_time (s : Sess) (m : InMsg)
         rw [hcv] at h
         simp only [] at h
         generalize hs3 : (if ((if s2.cfg.initiator = true then false else s2.cfg.resetOnLogon) || logonResetFlag m && !s2.sentReset) = true
-            then s2.storeReset else s2) = s3 at h
+            then dropAndReset s2 else s2) = s3 at h
         have a3 : s3.cfg = s.cfg ∧ s3.st = s.st := by
           rw [← hs3]; exact ⟨(ite_storeReset_frame _ s2).1.trans a2.1, (ite_storeReset_frame _ s2).2.trans a2.2⟩
         have hv2 := verifySelect_pass s3 m false true false
@@ -360,7 +360,7 @@ theorem cold_connect {s : Sess} (hc : Cold s) : CGood s (connect s).1 := by
           show (sendLogonInReplyTo _ _).inbox = _
           generalize hs1 : (if s.openConn.cfg.refreshOnLogon = true then s.openConn.emit Obs.refresh else s.openConn) = s1
           have h1 : s1.inbox = s.openConn.inbox := by rw [← hs1]; split <;> rfl
-          generalize hs2 : (if s1.cfg.resetOnLogon = true then s1.storeReset else s1) = s2
+          generalize hs2 : (if s1.cfg.resetOnLogon = true then dropAndReset s1 else s1) = s2
           have h2 : s2.inbox = s.openConn.inbox := by rw [← hs2]; split <;> exact h1
           rw [(relF_sendLogonInReplyTo (N := coldObs) (S := fun _ _ => True) s2 _ (Or.inl cold_resetOK)).inbox]
           exact h2
